@@ -541,6 +541,12 @@ func (q *Query) walkExprs(fn func(*Expr)) {
 	}
 }
 
+// Walk visits every node of the expression, nested queries included.
+func (e *Expr) Walk(fn func(*Expr)) { e.walk(fn) }
+
+// DirectSubqueries visits the subqueries directly contained in this block's expressions.
+func (q *Query) DirectSubqueries(fn func(*Query)) { q.directSubqueries(fn) }
+
 // walkShallow visits the nodes of the expression without descending into subqueries.
 func (e *Expr) walkShallow(fn func(*Expr)) {
 	fn(e)
